@@ -134,6 +134,12 @@ def r1(R, m, methods):
                 # the container changes, the columns in it do not (rows of the 2-D array become views of the same memory): nothing to re-point
                 R.inst("C17.R1", "columnfile.%s: %s keeps every column" % (name, src(stmt)))
                 continue
+            if isinstance(stmt, ast.Assign) and what.startswith("rebind slot"):
+                rv_ = pyfacts.resolved(fn, stmt.value, 2, keep=("self",))
+                if isinstance(rv_, ast.Call) and pyfacts.dotted(rv_.func) == "getattr" and len(rv_.args) == 2 and src(rv_.args[0]) == "self":
+                    # chkarray written out: the slot receives the attribute of that title - storage and attribute agree by construction
+                    R.inst("C17.R1", "columnfile.%s: %s copies the attribute into the storage" % (name, src(stmt)))
+                    continue
             wn = cfg.node_of(stmt)
             if wn is None:
                 R.fail("C17.R1: cannot place statement %s of %s in the CFG" % (src(stmt)[:50], name))
@@ -307,6 +313,10 @@ def r3(R, m, methods):
         fn = methods.get(name)
         if fn is None:
             R.fail("columnfile.%s vanished" % name)
+        try:
+            fn = m.ifunc("%s.%s" % (CLS, name), keep=("set_attributes", "filter", "reorder", "addcolumn", "setcolumn", "chkarray", "set_bigarray", "get_bigarray"))
+        except Exception:
+            pass                    # module-level / private helpers that hold the length checks are read in place
         cfg = pyfacts.PyCFG(fn)
         gates = []
         for s in ast.walk(fn):
@@ -409,6 +419,16 @@ def r5(R, m, methods):
         fn = m.ifunc("%s.%s" % (CLS, name), keep=("chkarray", "set_attributes"))
         cfg = pyfacts.PyCFG(fn)
         chk = [s for s in ast.walk(fn) if isinstance(s, ast.Expr) and isinstance(s.value, ast.Call) and pyfacts.dotted(s.value.func) == "self.chkarray"]
+        if not chk:
+            # chkarray written out: a loop over enumerate(self.titles) that stores getattr(self, <title>) into self.__data[<index>]
+            for l_ in ast.walk(fn):
+                if isinstance(l_, ast.For) and isinstance(l_.iter, ast.Call) and pyfacts.dotted(l_.iter.func) == "enumerate" and l_.iter.args \
+                        and src(l_.iter.args[0]) == "self.titles" and isinstance(l_.target, ast.Tuple) and len(l_.target.elts) == 2:
+                    iv_, nv_ = src(l_.target.elts[0]), src(l_.target.elts[1])
+                    for a_ in ast.walk(l_):
+                        if isinstance(a_, ast.Assign) and isinstance(a_.targets[0], ast.Subscript) and is_self_data(a_.targets[0].value) and src(a_.targets[0].slice) == iv_ \
+                                and pyfacts.resolved_src(fn, a_.value, 2, keep=("self", nv_)).replace(" ", "") == "getattr(self,%s)" % nv_:
+                            chk = [l_]
         R.check(len(chk) >= 1, "C17.R5", REL, fn.lineno, "columnfile.%s" % name, "self.chkarray() called", "chkarray() call removed")
         if not chk:
             continue
@@ -550,6 +570,10 @@ def r7(R, m, methods):
         for t, pol in guards:
             if isinstance(t, ast.BoolOp) and isinstance(t.op, ast.Or) and pol:
                 if all((F_TITLES in atoms([(d, True)])) or (F_NOT_COLUMN in atoms([(d, True)])) for d in t.values):
+                    return True
+            if isinstance(t, ast.BoolOp) and isinstance(t.op, ast.And) and not pol:
+                # a conjunction that failed: one of its parts is false, and each part's negation says 'not a column'
+                if all((F_TITLES in atoms([(d, False)])) or (F_NOT_COLUMN in atoms([(d, False)])) for d in t.values):
                     return True
         return False
     for c in sup:
